@@ -254,3 +254,10 @@ impl Display for Grapheme {
         }
     }
 }
+
+#[cfg(any(grex_verif, kani))]
+pub(crate) mod verif_forward {
+    pub(crate) fn escape(c: char, use_surrogate_pairs: bool) -> String {
+        super::Grapheme::from("", false, false, false).escape(c, use_surrogate_pairs)
+    }
+}
